@@ -40,6 +40,8 @@ def atoms_eq_classes():
 def atoms_bigints():
     return [None, True, 0, 1, -1, 2 ** 53, 2 ** 53 + 1, 2 ** 63 - 1, 2 ** 63, Big(2 ** 63 - 1), -(2 ** 63),
             -(2 ** 63) - 1, 2 ** 64, 10 ** 20, -(10 ** 20), 2 ** 130, float("inf"), float("-inf"),
+            # integers too large for a finite float are still finite
+            2 ** 1030, -(2 ** 1030), 2 ** 1024, 10 ** 320, Dec("1e1000"), Dec("-1e1000"),
             Big(5), 5, Str(b"a", True)]
 
 
